@@ -41,6 +41,9 @@ type Scenario struct {
 	UseStore   bool              // stage through the real content-addressed store
 	Derived    bool              // plan = Diff(scan, target): old entries describe the disk
 	Label      string
+	// Stage, when set, fills the store instead of the default direct sink
+	// writes (C10: staging through the rsync receiver with corrupted streams).
+	Stage func(st *staging.Stager, root string, paths []string, digests [][]byte) error
 }
 
 // Gen holds the generator state: one PRNG and the counters that make leaf
@@ -594,24 +597,30 @@ func Build(sc *Scenario, dir string, faults []Fault) (*Case, error) {
 		if err := st.Initialize(); err != nil {
 			return nil, err
 		}
+		if sc.Stage != nil {
+			if err := sc.Stage(st, root, paths, digests); err != nil {
+				return nil, err
+			}
+		}
 		for i := range paths {
 			k := Key(paths[i], digests[i])
 			data, ok := sc.Contents[hx.Hex(digests[i])]
-			if !ok || sc.Unstaged[k] {
-				continue
+			if sc.Stage == nil && ok && !sc.Unstaged[k] {
+				sink, err := st.Sink(paths[i])
+				if err != nil {
+					return nil, err
+				}
+				sink.Write(data)
+				if err := sink.Close(); err != nil {
+					return nil, err
+				}
 			}
-			sink, err := st.Sink(paths[i])
-			if err != nil {
-				return nil, err
+			if p, err := st.Provide(paths[i], digests[i]); err == nil {
+				os.Chtimes(p, RealTime(500000+i), RealTime(500000+i))
 			}
-			sink.Write(data)
-			if err := sink.Close(); err != nil {
-				return nil, err
-			}
-			p, _ := st.Provide(paths[i], digests[i])
-			os.Chtimes(p, RealTime(500000+i), RealTime(500000+i))
 		}
 		c.Provider = storeProvider{st}
+		c.StoreDir = stagingDir
 	} else {
 		if err := os.Mkdir(stagingDir, 0o700); err != nil {
 			return nil, err
